@@ -54,7 +54,7 @@ func errLines(err error) string {
 			lines = append(lines, hx(l))
 		}
 	}
-	return sortedJoin(lines)
+	return strings.Join(lines, ",") // in the order reported: the order of the diagnostics is part of what is compared
 }
 
 func specStr(s *spec.Spec) string {
